@@ -18,8 +18,12 @@ CONSTANTS Clients,          \* client numbers (each connects at most once)
           Ids,              \* peer ids used in REGISTER / CONNECT
           MaxData,          \* data tokens per client
           MaxHist,          \* bound on the number of client steps (0: unbounded, the state space is finite)
-          RegWhileClaimed   \* "refuse": REGISTER of a claimed peer is answered with an error (the code after
+          RegWhileClaimed,  \* "refuse": REGISTER of a claimed peer is answered with an error (the code after
                             \* the proposed fix);  "accept": the code as found (deviation, see MC_Relay_dev_*.cfg)
+          AltSpelling       \* a CONNECT may spell its target's id differently from the registry key (upper-case hex):
+                            \* "off": such CONNECTs are not part of the model;  "refuse": the registry is searched with the
+                            \* text as typed, so they find nothing (the code);  "erase-raw": deviation -- the lookup
+                            \* canonicalises but the entry is erased under the text as typed, so the claimed peer stays listed
 
 VARIABLES s,      \* server state + client inbound queues + contract ghost, one record (handlers are functions on it)
           ck,     \* what each client knows: "new" (not connected), "idle", "reg" (REGISTER accepted),
@@ -88,13 +92,16 @@ HandleRegister(t, c, i) ==
            IN Reply([t1 EXCEPT !.peer[c] = i, !.st[c] = "reg", !.reg[i] = c], "ok")
 
 \* handle_connect(session, self_hex, target_hex); self = the two ids are equal
-HandleConnect(t, c, i, self) ==
+HandleConnect(t, c, i, self, alt) ==
     IF t.st[c] = "reg" THEN Reply(t, "err")                        \* already-registered
     ELSE IF self THEN Reply(t, "err")                               \* invalid-target
-    ELSE LET e == t.reg[i] IN                                       \* find_registered
+    ELSE IF alt /\ AltSpelling # "erase-raw" THEN Reply(t, "err")   \* the id as typed is not a registry key: target-unavailable
+    ELSE LET e == t.reg[i]                                          \* find_registered
+             erased == IF alt THEN t.reg[i] ELSE None               \* registered_.erase(text as typed)
+         IN
          IF e = None THEN Reply(t, "err")
-         ELSE IF ~Alive(t, e) \/ t.st[e] # "reg" THEN Reply([t EXCEPT !.reg[i] = None], "err")
-         ELSE Reply([t EXCEPT !.reg[i] = None, !.st[c] = "await", !.partner[c] = e, !.partner[e] = c], "ok")
+         ELSE IF ~Alive(t, e) \/ t.st[e] # "reg" THEN Reply([t EXCEPT !.reg[i] = erased], "err")
+         ELSE Reply([t EXCEPT !.reg[i] = erased, !.st[c] = "await", !.partner[c] = e, !.partner[e] = c], "ok")
 
 Begin(c) == [k |-> "b", f |-> c]
 Tok(c, q, to) == [k |-> "t", f |-> c, q |-> q, to |-> to]
@@ -115,10 +122,10 @@ Forward(t, c, tok) ==
     IF ~Alive(t, p) THEN Close(t, c) ELSE Q(t, p, tok)
 
 \* a complete line from a session in a line state (handle_line); a pending piece of a line glues to it
-Line(t, c, kind, i, self) ==
+Line(t, c, kind, i, self, alt) ==
     IF t.junk[c] THEN Reply([t EXCEPT !.junk[c] = FALSE], "err")   \* unknown-command
     ELSE CASE kind = "reg"  -> HandleRegister(t, c, i)
-           [] kind = "con"  -> HandleConnect(t, c, i, self)
+           [] kind = "con"  -> HandleConnect(t, c, i, self, alt)
            [] kind \in {"pong", "empty"} -> t
            [] OTHER -> Reply(t, "err")                              \* unknown-command (incl. a data token)
 
@@ -168,16 +175,17 @@ Open(c) ==
 
 Register(c, i) ==
     /\ ck[c] \in {"idle", "reg"} /\ Connected(c)
-    /\ LET t == Line(Fresh, c, "reg", i, FALSE) IN
+    /\ LET t == Line(Fresh, c, "reg", i, FALSE, FALSE) IN
        Finish([op |-> "reg", c |-> c, i |-> i, claimed |-> Alive(s, s.partner[c])], t,
               IF t.last = "ok" THEN [ck EXCEPT ![c] = "reg"] ELSE ck, tgt, ids, nd,
               IF t.last = "ok" THEN [regids EXCEPT ![c] = @ \cup {i}] ELSE regids)
 
 \* CONNECT, optionally with the whole identity (pipe = 1) and one data token (pipe = 2) in the same write
-Connect(c, i, self, pipe) ==
+Connect(c, i, self, pipe, alt) ==
     /\ ck[c] \in {"idle", "reg"} /\ Connected(c)
+    /\ alt => (AltSpelling # "off" /\ ~self)
     /\ pipe = 2 => nd[c] < MaxData
-    /\ LET t1 == Line(Fresh, c, "con", i, self)
+    /\ LET t1 == Line(Fresh, c, "con", i, self, alt)
            ok == t1.last = "ok"
            t2 == IF pipe = 0 THEN t1
                  ELSE IF ok THEN HandleIdentityReady(t1, c)
@@ -186,7 +194,7 @@ Connect(c, i, self, pipe) ==
            tok == Tok(c, nd[c] + 1, t2.br[c])
            t3 == IF pipe = 2 /\ ok /\ Alive(t2, c) THEN Forward(t2, c, tok) ELSE t2     \* surplus after the identity
            t4 == IF pipe = 2 /\ tok.to # None THEN [t3 EXCEPT !.post[c] = Append(@, tok)] ELSE t3
-       IN Finish([op |-> "con", c |-> c, i |-> i, self |-> self, pipe |-> pipe], t4,
+       IN Finish([op |-> "con", c |-> c, i |-> i, self |-> self, pipe |-> pipe, alt |-> alt], t4,
                  IF ok THEN [ck EXCEPT ![c] = "con"] ELSE ck,
                  IF ok THEN [tgt EXCEPT ![c] = i] ELSE tgt,
                  IF ok /\ pipe > 0 THEN [ids EXCEPT ![c] = 3] ELSE ids,
@@ -209,13 +217,13 @@ Data(c) ==
     /\ Connected(c) /\ nd[c] < MaxData
     /\ ck[c] \in {"idle", "reg", "begun"} \/ (ck[c] = "con" /\ ids[c] = 3)
     /\ LET tok == Tok(c, nd[c] + 1, s.br[c])
-           t1 == IF s.st[c] = "br" THEN Forward(Fresh, c, tok) ELSE Line(Fresh, c, "tok", None, FALSE)
+           t1 == IF s.st[c] = "br" THEN Forward(Fresh, c, tok) ELSE Line(Fresh, c, "tok", None, FALSE, FALSE)
            t2 == IF tok.to # None THEN [t1 EXCEPT !.post[c] = Append(@, tok)] ELSE t1
        IN Finish([op |-> "data", c |-> c, to |-> tok.to], t2, ck, tgt, ids, [nd EXCEPT ![c] = @ + 1], regids)
 
 Misc(c, kind) ==
     /\ ck[c] \in {"idle", "reg"} /\ Connected(c)
-    /\ Finish([op |-> "misc", c |-> c, kind |-> kind], Line(Fresh, c, kind, None, FALSE), ck, tgt, ids, nd, regids)
+    /\ Finish([op |-> "misc", c |-> c, kind |-> kind], Line(Fresh, c, kind, None, FALSE, FALSE), ck, tgt, ids, nd, regids)
 
 \* the client closes its socket (or half-closes: the server treats recv() = 0 the same way)
 Disconnect(c) ==
@@ -234,7 +242,7 @@ Next == /\ ~s.hung
         /\ \E c \in Clients :
               \/ Open(c)
               \/ \E i \in Ids : Register(c, i)
-              \/ \E i \in Ids, self \in BOOLEAN, pipe \in 0..2 : Connect(c, i, self, pipe)
+              \/ \E i \in Ids, self \in BOOLEAN, pipe \in 0..2, alt \in BOOLEAN : Connect(c, i, self, pipe, alt)
               \/ \E n \in 1..3, plus \in BOOLEAN : Identity(c, n, plus)
               \/ Data(c)
               \/ \E kind \in MiscKinds : Misc(c, kind)
